@@ -55,14 +55,14 @@ def prepare_lexer(scratch, tier="quick"):
     except subprocess.TimeoutExpired:
         raise Inconclusive("translation validation timed out (flattened scanner does not terminate like the real one)")
     if rc1 != rc2 or o1 != o2:
-        raise Inconclusive("flattened scanner differs from flex's scanner on strings of length <= %d (translator needs attention)" % n)
+        info["mismatch"] = "flattened scanner differs from flex's scanner on strings of length <= %d" % n
     total += o1.count(b"\n")
     files = sorted(glob.glob(os.path.join(REPO, "tests", "*.conf")) + glob.glob(os.path.join(REPO, "examples", "*.conf")) +
                    glob.glob(os.path.join(REPO, "tests", "*.c")) + glob.glob(os.path.join(REPO, "examples", "*.c")))
     rc1, o1, e1 = _run(["./ld_real", "file"] + files, scratch)
     rc2, o2, e2 = _run(["./ld_flat", "file"] + files, scratch)
     if rc1 != rc2 or o1 != o2:
-        raise Inconclusive("flattened scanner differs from flex's scanner on files of tests/ and examples/")
+        info["mismatch"] = "flattened scanner differs from flex's scanner on files of tests/ and examples/"
     total += o1.count(b"\n")
     # include handling through the whole library (source stack / yyin model)
     inc_a = os.path.join(scratch, "inc_a.conf")
@@ -77,8 +77,12 @@ def prepare_lexer(scratch, tier="quick"):
     rc1, o1, e1 = _run([os.path.join(scratch, "ld_real"), "parse"] + tests, os.path.join(REPO, "tests"))
     rc2, o2, e2 = _run([os.path.join(scratch, "ld_flat"), "parse"] + tests, os.path.join(REPO, "tests"))
     if rc1 != rc2 or o1 != o2:
-        raise Inconclusive("flattened scanner differs from flex's scanner on include handling")
+        info["mismatch"] = "flattened scanner differs from flex's scanner on include handling"
     total += len(tests)
+    if "mismatch" in info:
+        info["translation_validation"] = "FAILED: " + info["mismatch"]
+        info["validated_transcripts"] = 0
+        return info
     info["translation_validation"] = "flattened scanner == flex scanner on %d transcripts (all strings of length <= %d over %d class representatives in 4 start conditions, %d files, %d whole parses incl. nested/failing includes)" % (
         total, n, len(al) // 2, len(files), len(tests))
     info["validated_transcripts"] = total
